@@ -122,6 +122,10 @@ type ufsData struct {
 	HashType   uint64
 	Fanout     uint64
 	IsHAMT     bool
+	Mode       uint64 // UnixFS 1.5 optional metadata
+	HasMode    bool
+	Mtime      int64
+	HasMtime   bool
 }
 
 func encUnixFS(d ufsData) []byte {
@@ -139,7 +143,22 @@ func encUnixFS(d ufsData) []byte {
 		out = append(out, pbVarintField(5, d.HashType)...)
 		out = append(out, pbVarintField(6, d.Fanout)...)
 	}
+	if d.HasMode {
+		out = append(out, pbVarintField(7, d.Mode)...)
+	}
+	if d.HasMtime {
+		out = append(out, pbBytesField(8, pbVarintField(1, uint64(d.Mtime)))...)
+	}
 	return out
+}
+
+// optional metadata hint of a build value: n<mode+1> (0 / absent: no metadata)
+func (d ufsData) withMeta(h Val) ufsData {
+	if m := vn(h); m > 0 {
+		d.Mode, d.HasMode = m-1, true
+		d.Mtime, d.HasMtime = 1700000000+int64(m), true
+	}
+	return d
 }
 
 func pbCid(data []byte) cid.Cid   { return mkCid(1, 0x70, mh.SHA2_256, -1, data) }
@@ -149,6 +168,7 @@ func cborCid(data []byte) cid.Cid { return mkCid(1, 0x71, mh.SHA2_256, -1, data)
 // ---------------------------------------------------------------- DAG assembly from the case value
 //
 // utree value (model part first, build hints after it; the model ignores the hints):
+//   (tf  b<data> n<form> n<chunks> n<mode+1>)  (tl b<target> n<mode+1>)  (td (...) n<form> n<mode+1>): optional UnixFS mode/mtime
 //   (tf  b<data> n<form> n<chunks>)              form: 0 raw leaf, 1 pb File inline, 2 pb Raw inline,
 //                                                       3 chunked raw leaves, 4 chunked pb leaves, 5 dag-cbor bytes
 //   (tfe b<prefix> n<form 3|4> n<chunks> n<missing index> b<full data>)
@@ -219,7 +239,7 @@ func splitChunks(data []byte, n int) [][]byte {
 }
 
 // buildFile returns the CID of a file DAG; chunk index `missing` (if >= 0) is not stored.
-func (s *dagStore) buildFile(data []byte, form, chunks, missing int) cid.Cid {
+func (s *dagStore) buildFile(data []byte, form, chunks, missing int, meta Val) cid.Cid {
 	switch form {
 	case 0:
 		c := rawCid(data)
@@ -230,7 +250,7 @@ func (s *dagStore) buildFile(data []byte, form, chunks, missing int) cid.Cid {
 		if form == 2 {
 			t = ufsRaw
 		}
-		nb := encPBNode(nil, encUnixFS(ufsData{Type: t, Data: data, HasData: true, FileSize: uint64(len(data)), HasSize: true}), true)
+		nb := encPBNode(nil, encUnixFS(ufsData{Type: t, Data: data, HasData: true, FileSize: uint64(len(data)), HasSize: true}.withMeta(meta)), true)
 		c := pbCid(nb)
 		s.put(c, nb)
 		return c
@@ -278,28 +298,32 @@ func (s *dagStore) buildFile(data []byte, form, chunks, missing int) cid.Cid {
 			links = append(links, pbLink{Cid: c, Name: nil, HasName: true, Tsize: tsize, HasTsize: true})
 			sizes = append(sizes, uint64(len(p)))
 		}
-		nb := encPBNode(links, encUnixFS(ufsData{Type: ufsFile, FileSize: uint64(len(data)), HasSize: true, BlockSizes: sizes}), true)
+		nb := encPBNode(links, encUnixFS(ufsData{Type: ufsFile, FileSize: uint64(len(data)), HasSize: true, BlockSizes: sizes}.withMeta(meta)), true)
 		c := pbCid(nb)
 		s.put(c, nb)
 		return c
 	}
 }
 
-func hamtData() []byte {
+func hamtData(meta ...Val) []byte {
 	bf := bytes.Repeat([]byte{0xff}, 32)
-	return encUnixFS(ufsData{Type: ufsHAMT, Data: bf, HasData: true, IsHAMT: true, HashType: 0x22, Fanout: 256})
+	d := ufsData{Type: ufsHAMT, Data: bf, HasData: true, IsHAMT: true, HashType: 0x22, Fanout: 256}
+	if len(meta) > 0 {
+		d = d.withMeta(meta[0])
+	}
+	return encUnixFS(d)
 }
 
 // build returns the CID for a utree value and stores the blocks that are present.
 func (s *dagStore) build(v Val) cid.Cid {
 	switch vt(vnth(v, 0)) {
 	case "f":
-		return s.buildFile(vb(vnth(v, 1)), int(vn(vnth(v, 2))), int(vn(vnth(v, 3))), -1)
+		return s.buildFile(vb(vnth(v, 1)), int(vn(vnth(v, 2))), int(vn(vnth(v, 3))), -1, vnth(v, 4))
 	case "fe":
-		return s.buildFile(vb(vnth(v, 5)), int(vn(vnth(v, 2))), int(vn(vnth(v, 3))), int(vn(vnth(v, 4))))
+		return s.buildFile(vb(vnth(v, 5)), int(vn(vnth(v, 2))), int(vn(vnth(v, 3))), int(vn(vnth(v, 4))), VN(0))
 	case "l":
 		tg := s.sb.realStr(vb(vnth(v, 1)))
-		nb := encPBNode(nil, encUnixFS(ufsData{Type: ufsSymlink, Data: tg, HasData: true}), true)
+		nb := encPBNode(nil, encUnixFS(ufsData{Type: ufsSymlink, Data: tg, HasData: true}.withMeta(vnth(v, 2))), true)
 		c := pbCid(nb)
 		s.put(c, nb)
 		return c
@@ -343,7 +367,7 @@ func (s *dagStore) build(v Val) cid.Cid {
 				nl = append(nl, links[hi:]...)
 				links = nl
 			}
-			nb := encPBNode(links, hamtData(), true)
+			nb := encPBNode(links, hamtData(vnth(v, 3)), true)
 			c := pbCid(nb)
 			s.put(c, nb)
 			return c
@@ -353,7 +377,7 @@ func (s *dagStore) build(v Val) cid.Cid {
 			s.put(c, nb)
 			return c
 		default:
-			nb := encPBNode(links, encUnixFS(ufsData{Type: ufsDirectory}), true)
+			nb := encPBNode(links, encUnixFS(ufsData{Type: ufsDirectory}.withMeta(vnth(v, 3))), true)
 			c := pbCid(nb)
 			s.put(c, nb)
 			return c
@@ -450,6 +474,9 @@ func newSandbox(c *Ctx) *sandbox {
 	if err != nil {
 		panic(err)
 	}
+	if err := os.Chmod(r, 0o755); err != nil {
+		panic(err)
+	}
 	return &sandbox{real: r}
 }
 func (s *sandbox) remove() { os.RemoveAll(s.real) }
@@ -476,7 +503,49 @@ func (s *sandbox) realPath(p [][]byte) string {
 }
 
 // fs value: ((path node) ...), path = (bSB bname ...), node = (td) | (tf bdata) | (tl btarget); parents first
+type chmod struct {
+	path string
+	mode os.FileMode
+}
+
+func unixMode(m uint64) os.FileMode {
+	fm := os.FileMode(m & 0o777)
+	if m&0o4000 != 0 {
+		fm |= os.ModeSetuid
+	}
+	if m&0o2000 != 0 {
+		fm |= os.ModeSetgid
+	}
+	if m&0o1000 != 0 {
+		fm |= os.ModeSticky
+	}
+	return fm
+}
+func modeBits(fm os.FileMode) uint64 {
+	m := uint64(fm.Perm())
+	if fm&os.ModeSetuid != 0 {
+		m |= 0o4000
+	}
+	if fm&os.ModeSetgid != 0 {
+		m |= 0o2000
+	}
+	if fm&os.ModeSticky != 0 {
+		m |= 0o1000
+	}
+	return m
+}
+
 func (s *sandbox) populate(fs Val) {
+	syscall.Umask(0o022)
+	var chmods []chmod
+	defer func() {
+		// directories get their final bits once their contents are in place
+		for i := len(chmods) - 1; i >= 0; i-- {
+			if err := os.Chmod(chmods[i].path, unixMode(uint64(chmods[i].mode))); err != nil {
+				panic(err)
+			}
+		}
+	}()
 	for _, e := range vl(fs) {
 		var p [][]byte
 		for _, c := range vl(vnth(e, 0)) {
@@ -494,8 +563,14 @@ func (s *sandbox) populate(fs Val) {
 		switch vt(vnth(n, 0)) {
 		case "d":
 			err = os.Mkdir(rp, 0o755)
+			if m, ok := vnth(n, 1).(VN); ok && err == nil {
+				chmods = append(chmods, chmod{rp, os.FileMode(m)})
+			}
 		case "f":
 			err = os.WriteFile(rp, vb(vnth(n, 1)), 0o644)
+			if m, ok := vnth(n, 2).(VN); ok && err == nil {
+				err = os.Chmod(rp, unixMode(uint64(m)))
+			}
 		case "l":
 			err = os.Symlink(string(s.realStr(vb(vnth(n, 1)))), rp)
 		}
@@ -544,7 +619,7 @@ func (s *sandbox) snapshot() Val {
 			}
 			ents = append(ents, snapEnt{mp, VL{VT("l"), VB(s.modelStr([]byte(t)))}})
 		case fi.IsDir():
-			ents = append(ents, snapEnt{mp, VL{VT("d")}})
+			ents = append(ents, snapEnt{mp, VL{VT("d"), VN(modeBits(fi.Mode()))}})
 			des, err := os.ReadDir(real)
 			if err != nil {
 				panic(err)
@@ -558,7 +633,7 @@ func (s *sandbox) snapshot() Val {
 			if err != nil {
 				panic(err)
 			}
-			ents = append(ents, snapEnt{mp, VL{VT("f"), VB(absData(b))}})
+			ents = append(ents, snapEnt{mp, VL{VT("f"), VB(absData(b)), VN(modeBits(fi.Mode()))}})
 		default:
 			ents = append(ents, snapEnt{mp, VL{VT("special")}})
 		}
@@ -757,7 +832,7 @@ func init() {
 //   fs      = sandbox before extraction: source tree, empty output directory
 //   roots   = ((tn <utree>)): what `car create` builds from the source, as the walk sees it
 //   opts    = (n<version 1|2> n<no-wrap> n<mode: 0 -f file, 1 stdin from a file, 2 stdin from a pipe>)
-//   src     = (b<source argument of car create> ((b<digest> n<seed> n<len> n<zero tail> n<chunk repeats> b<explicit> n<zero head>) ...))
+//   src     = (b<source argument of car create> | (b<source argument> ...)  ((b<digest> n<seed> n<len> n<zero tail> n<chunk repeats> b<explicit> n<zero head>) ...))
 //             recipes for contents longer than 64 bytes (the fs value carries only their digest)
 // observation: (status realroot fs-after (n<roots> n<printed = header root> n<root != proxy> n<root block present>))
 const proxyRootStr = "bafybeihdwdcefgh4dqkjv67uzcmw7ojee6xedzdetojuzjevtenxquvyku"
@@ -828,12 +903,20 @@ func runCreateExtractCase(c *Ctx, in Val) Val {
 	version := vn(vnth(opts, 0))
 	nowrap := vn(vnth(opts, 1)) != 0
 	mode := vn(vnth(opts, 2))
-	srcArg := string(sb.realStr(vb(vnth(vnth(in, 6), 0))))
+	var srcArgs []string
+	if l, ok := vnth(vnth(in, 6), 0).(VL); ok {
+		for _, a := range l {
+			srcArgs = append(srcArgs, string(sb.realStr(vb(a))))
+		}
+	} else {
+		srcArgs = []string{string(sb.realStr(vb(vnth(vnth(in, 6), 0))))}
+	}
 	args := []string{"create", "--version", strconv.FormatUint(version, 10)}
 	if nowrap {
 		args = append(args, "--no-wrap")
 	}
-	args = append(args, "-f", carPath, srcArg)
+	args = append(args, "-f", carPath)
+	args = append(args, srcArgs...)
 	debug := os.Getenv("VERIF_CLI_DEBUG") != ""
 	res := runCar(c, cwdReal, nil, args...)
 	if debug {
